@@ -182,6 +182,8 @@ func C03(run *Run) {
 	nCases := run.Pick(100, 2000)
 	perCase := run.Pick(30, 50)
 	rec := &Recorder{}
+	nograph := 0
+	defer func() { run.Coverage["cases_without_model_graph"] = nograph }()
 	for c := 0; c < nCases; c++ {
 		cs, _ := GenCase(r, c, GenOpts{})
 		if err := v.Base.Setup(ctx, cs.Model, cs.Tuples); err != nil {
@@ -192,7 +194,10 @@ func C03(run *Run) {
 			run.Inconclusive("typesystem: %v", err)
 		}
 		if mg == nil {
-			run.Note("model graph could not be built for case %d", c)
+			nograph++
+			if nograph <= 3 {
+				run.Note("model graph could not be built for case %d: %s (model %s)", c, LastModelGraphErr, cs.Model)
+			}
 			continue
 		}
 		rec.Setup(cs.SetupEv())
